@@ -379,7 +379,8 @@ def run(R, replay=None):
     R.rule = ("(1) all pairs (baseline multiset, current multiset) of up to 3-4 findings over three identities in two files, current "
               "order shuffled, through _compare_baseline_results/_find_candidate_matches vs the model and the statement; (2) histories "
               "scan -> JSON report -> edit (add, add a new identity, remove, duplicate, move, insert blank/comment lines) -> scan -b, "
-              "through main(), thresholds and baseline-capable formats varied; non-trivial = non-empty baseline")
+              "through main(), thresholds and baseline-capable formats varied; non-trivial = non-empty baseline"
+              "; chained histories (a report written under -b used as the next baseline) and one manager queried before and after baselines are loaded")
     unit(R, rng, R.tier)
     system(R, rng, R.tier)
     system_multi(R, rng, R.tier)
